@@ -373,7 +373,7 @@ META = {
              'once; the fetch window of every bin extends by exactly the fragment size wherever the gap allows; margin constants are non-zero for '
              'nla/chic. Together with C17 (tiling) and C05 (job list) this is the static part of "each molecule is written by exactly one job". Does '
              'NOT decide equality of flags/tags between serial and parallel runs nor sufficiency of the margin for the actual fragment lengths.'),
-    'technique': 'static analysis: exhaustive ordering enumeration of ownership / stop predicates, exact clamp check of fetch windows, producer/consumer field agreement; def-use check of the planned job list, constant-path check of a whole-contig task (window values stay None)',
+    'technique': 'static analysis: exhaustive ordering enumeration of ownership / stop predicates, exact clamp check of fetch windows, producer/consumer field agreement; def-use check of the planned job list, constant-path check of a whole-contig task (window values stay None); small-scope abstract execution of generate_tasks on a model plan (a region with a read in its fetch window becomes exactly one task) and of the tiling incl. window exactness where the symbolic reading cannot follow',
     'design_ref': 'DESIGN.md section 5, C08',
 }
 
